@@ -165,7 +165,7 @@ add_binfunc!(add_int_pow, pow, X_INT, Int, X_INT, |a: &LazyBigint,
         rt.can_allocate_by(|| {
             b.to_usize()
                 .zip(a.bits().to_usize())
-                .map(|(b, a_bits)| (a_bits / 8) * b)
+                .map(|(b, a_bits)| (a_bits / 8).saturating_mul(b))
         })?;
         Ok(XValue::Int(a.clone().pow(b.clone())))
     }
